@@ -108,3 +108,21 @@ PROPS["C01"] = {
         "operator arguments and keys restricted to bytes that need no quoting (C16 owns the directive syntax)",
     ],
 }
+
+PROPS["C15"] = {
+    "level": "exploration",
+    "runs": [run("TestC15Direct", (60000, 4), (1500000, 16)), run("TestC15Rule", (4000, 4), (100000, 16))],
+    "rule": "cases = (operator, argument, input) generated together within one edit of the decision boundary: string operators with literal "
+            "and %{tx.k} arguments, numeric comparisons of neighbouring integers, @pm / @pmFromDataset / @pmFromFile phrase lists (case mixed, "
+            "prefixes of one another, phrase at the very end, input shorter than the shortest phrase, many hits), @ipMatch CIDR lists with "
+            "boundary addresses, byte ranges touching 0 and 255, %XX strings with truncations, valid/invalid UTF-8, @rx patterns with up to "
+            "12 groups; each compared with a naive executable definition, captures TX.0-9 included; the rule-level run checks that '!' is "
+            "the exact complement; every case is counted non-trivial (generated at the boundary); distinct = distinct (op, arg, input, flags)",
+    "essential": {"all": ["match:pm", "nomatch:pm", "match:pmFromFile", "match:pmFromDataset", "match:ipMatch", "nomatch:ipMatch", "match:validateByteRange",
+                          "nomatch:validateByteRange", "match:validateUrlEncoding", "nomatch:validateUrlEncoding", "match:validateUtf8Encoding",
+                          "match:rx", "nomatch:rx", "capture-checked", "capture-10-groups", "macro-argument", "match:within", "match:streq", "nomatch:streq"]},
+    "assumptions": COMMON_ASSUME + [
+        "Go's regexp with (?sm) is the trusted base for @rx; net.ParseCIDR for IPv6 networks; @pm captures are checked with a validity predicate "
+        "(overlapping hits are allowed: the matcher's iteration order is not documented)",
+    ],
+}
